@@ -1,3 +1,13 @@
-import GenlmModel.Model.Basic
+import Batteries.Tactic.Alias
+import GenlmModel.Proofs.AddEos
+import GenlmModel.Proofs.Norm
+/-! # C20 — local normalisation; EOS wrapping -/
 namespace Genlm.Props.C20
+alias heads_sum_to_one := Genlm.ln_heads_sum_one_drop
+alias proportional := Genlm.ln_proportional_drop
+alias proportional_div := Genlm.ln_proportional_div
+alias zero_rules_irrelevant := Genlm.WN_dropZero
+alias eos_wrapping := Genlm.addEOS_spec
+alias eos_append := Genlm.addEOS_append
+alias eos_zero_otherwise := Genlm.addEOS_zero
 end Genlm.Props.C20
